@@ -595,6 +595,10 @@ def gen_fzn(r, kinds_filter=None):
         if k.startswith("int_lin"):
             n = r.randint(1, 3)
             ws = [r.choice([-2, -1, 1, 2, 3, 0] if r.random() < 0.15 else [-2, -1, 1, 2, 3]) for _ in range(n)]
+            if r.random() < 0.2:
+                # zero coefficients between distinct non-zero ones (a term that is dropped must not shift the others)
+                n = r.randint(2, 4)
+                ws = [0 if r.random() < 0.4 else r.choice([-3, -2, -1, 1, 2, 3]) for _ in range(n)]
             if 0 in ws:
                 m.classes.add("fzn.zero_coefficient")
             vs = [ic() for _ in range(n)]
